@@ -77,7 +77,10 @@ class GetPlatformEnvironment(Target):
         envs = {ENVNAME: env} if defined else {}
         if c.choice('has_environment_env', 2):
             envs['environment'] = c.map('default_env')
-        this = Obj('concrete', get_environments=Extern('FlowIRConcrete.get_environments', lambda c, p: dict(envs)),
+        # get_environments hands out a copy of the name -> environment table unless asked not to (return_copy=False gives the
+        # STORED table); either way the environments inside are the stored objects
+        this = Obj('concrete', get_environments=Extern('FlowIRConcrete.get_environments',
+                                                       lambda c, p=None, return_copy=True, **k: dict(envs) if return_copy else envs),
                    _flowir={})
         return State(args=[this], kwargs={'name': name, 'platform': 'plat'}, name=name, envs=envs, key=c.str('anykey'))
 
@@ -90,8 +93,11 @@ class GetPlatformEnvironment(Target):
         if lname == 'none':
             return [('none-is-empty', isinstance(res, dict) and not isinstance(res, FlexDict) and len(res) == 0
                      or (isinstance(res, FlexDict) and res.sym is None and len(res) == 0))]
+        stored = st.envs.get(lname)
         return [('defined', lname in st.envs),
-                ('exact-contents', same_map(res, st.envs[lname], st.key) if lname in st.envs else False)]
+                ('exact-contents', same_map(res, st.envs[lname], st.key) if lname in st.envs else False),
+                # callers (get_environment) update() what they get: it must not be the object stored in the description
+                ('the-stored-environment-is-not-handed-out', unflex(res) is not unflex(stored) and res is not stored)]
 
     def cross_compare(self, sctx, sst, nctx, nst, model, concretize):
         return []
